@@ -624,9 +624,13 @@ impl DrawExecutor {
     fn blit_screen_to_screen(&mut self, _write_mode: i32, from: Position, to: Position, dest: Position) {
         let width = to.x - from.x;
         let height = to.y - from.y;
+        // only destination pixels inside the screen can change: keeps the work bounded by the canvas
+        let res = self.get_resolution();
+        let (x_start, x_end) = (0.max(-dest.x), width.min(res.width - dest.x));
+        let (y_start, y_end) = (0.max(-dest.y), height.min(res.height - dest.y));
 
-        for y in 0..height {
-            for x in 0..width {
+        for y in y_start..y_end {
+            for x in x_start..x_end {
                 let color = self.get_pixel(from.x + x, from.y + y);
                 self.set_pixel(dest.x + x, dest.y + y, color);
             }
@@ -657,6 +661,10 @@ impl DrawExecutor {
     }
 
     fn blit_screen_to_memory(&mut self, _write_mode: i32, from: Position, to: Position) {
+        // grab only what is on the screen
+        let res = self.get_resolution();
+        let from = Position::new(from.x.clamp(0, res.width), from.y.clamp(0, res.height));
+        let to = Position::new(to.x.clamp(from.x, res.width), to.y.clamp(from.y, res.height));
         let width = to.x - from.x;
         let height = to.y - from.y;
 
